@@ -391,8 +391,11 @@ func c12FieldGate(c *Ctx, r *Report, isExp *Fn) {
 			guarded := false
 			for _, a := range stack {
 				if g, isIf := a.(*ast.IfStmt); isIf && containsNode(g.Body, as) {
-					if b, isEq := isBinOp(g.Cond, token.EQL); isEq && (constObj(info, b.Y) == recvKind || constObj(info, b.X) == recvKind) {
-						guarded = true
+					// the guard may be strengthened (`… && receiverDeclaredAs(…)`): one conjunct is the kind test
+					for _, cj := range conjuncts(g.Cond) {
+						if b, isEq := isBinOp(cj, token.EQL); isEq && (constObj(info, b.Y) == recvKind || constObj(info, b.X) == recvKind) {
+							guarded = true
+						}
 					}
 				}
 			}
